@@ -40,7 +40,11 @@ WEIRD_LABELS = [{'s': 'fair'}, {'s': 'fair0'}, {'s': 'fair1'}, {'i': 7},
 
 WEIRD_ATOMS = ['not', 'A', 'U', 'true', '(p or q)', '', 'p q', 'fair',
                'fair0', '[p]', 'zz', 'E(G(p))', 'X', 'p  q', 'p\tq', ' p',
-               'fair1']
+               'fair1', '{req}', '{', '{}', '{0}', '%s', '%(p)s', '%',
+               'a.b', 'p,q', "it's", '#p', '$p', 'p;q', '\u00e9t\u00e9']
+
+
+HAZARD_ATOMS = ['{req}', '{', '{}', '{0}', '%s', '%(p)s', '%', '}{', '{p}']
 
 
 def _ident(a):
@@ -77,6 +81,7 @@ def gen_plan(seed, prop, faults, nested=False):
         'weird_labels': rng.random() < (0.7 if prop == 'C19' else 0.35),
         'weird_atoms': rng.random() < (0.5 if prop == 'C19' else 0.3),
         'large': rng.random() < 0.12,
+        'hazard_atoms': rng.random() < 0.3,
         'feedback': rng.random() < 0.25,
         'edits': rng.random() < 0.3,
         'fb_seed': rng.getrandbits(32),
@@ -107,7 +112,11 @@ def gen_plan(seed, prop, faults, nested=False):
                     fa = fa[:1] + ['fair', 'fair0'] + \
                         (['fair1'] if rng.random() < 0.3 else [])
             if cfg['weird_atoms'] and rng.random() < 0.5:
-                fa = fa + rng.sample(WEIRD_ATOMS, 2)
+                if cfg['hazard_atoms']:
+                    # names that are dangerous in format strings
+                    fa = fa[:1] + rng.sample(HAZARD_ATOMS, 2)
+                else:
+                    fa = fa + rng.sample(WEIRD_ATOMS, 2)
             tmax = 2 if logic != 'CTL' else 3
             if d == 0:
                 tree = gen._leaf(rng, fa) if logic != 'LTL' else \
@@ -115,6 +124,12 @@ def gen_plan(seed, prop, faults, nested=False):
             else:
                 tree = gen.gen_formula(rng, logic, fa, d, tmax,
                                        rng.choice([0.05, 0.15]))
+            if logic == 'CTLS' and rng.random() < (
+                    0.5 if cfg['weird_atoms'] else 0.2):
+                # the same quantified subformula twice in one formula
+                qs = _quantified_subtrees(tree, [])
+                if qs:
+                    tree = [rng.choice(['And', 'Or']), tree, rng.choice(qs)]
             formulas.append({'logic': logic, 'tree': tree,
                              'text_ok': core.text_writable(tree)})
     if cfg['weird_atoms'] and rng.random() < 0.5:
@@ -225,6 +240,12 @@ def gen_plan(seed, prop, faults, nested=False):
                         'F': F,
                         'S0': sorted(rng.sample(range(n),
                                                 rng.randint(0, n)))})
+    if rng.random() < 0.05:
+        # the structure without states (vacuously total)
+        structs.append({'A': {'n': 0, 'E': [], 'lab': []}, 'family': 'int',
+                        'smap': [], 'labs': [],
+                        'F': [[], [[]]] if cfg['fair'] else [],
+                        'S0': []})
     if cfg['large']:
         n = rng.randint(32, 45)
         A = gen.gen_abstract_kripke(rng, n, atoms, 0.2,
@@ -281,7 +302,7 @@ def gen_plan(seed, prop, faults, nested=False):
             # the caller edits a structure between two calls, through the
             # public API (labels(s) hands out the label set itself)
             ki = rng.randrange(len(structs))
-            if not structs[ki].get('large'):
+            if not structs[ki].get('large') and structs[ki]['A']['n'] > 0:
                 ops.append({'op': 'edit', 'k': ki,
                             'i': rng.randrange(structs[ki]['A']['n']),
                             'how': rng.choice(['add', 'discard', 'toggle',
